@@ -1,6 +1,8 @@
 #!/bin/bash
 # try_seed.sh <seed-dir> <prop> [<prop>...]: apply the seeded change to /repo, run the quick checks, undo
 D="$1"; shift
+trap "" PIPE
+trap 'git -C /repo reset -q --hard' EXIT
 cd /repo && git diff --quiet || { echo "/repo not clean"; exit 2; }
 git -C /repo apply "$D/patch.diff" 2>/dev/null || git -C /repo apply --3way "$D/patch.diff" || { echo "patch does not apply"; git -C /repo reset -q --hard; exit 2; }
 for P in "$@"; do
